@@ -60,3 +60,55 @@ func init() {
 		r.curOp++ // new observation point for the ledger cache
 	}
 }
+
+func init() {
+	// hold / unhold: a second AVS module places / lifts a hold on a pending undelegation through
+	// the delegation keeper's public hold-count API (the dogfood module is the only holder the
+	// application itself has). N selects the record (hold) or the held record (unhold).
+	directOps["hold"] = func(r *Run, ctx sdk.Context, op Op) {
+		l := r.Ledger(ctx)
+		if len(l.RecOrder) == 0 {
+			return
+		}
+		k := l.RecOrder[int(uint64(op.N)%uint64(len(l.RecOrder)))]
+		if err := r.Node.App.DelegationKeeper.IncrementUndelegationHoldCount(ctx, []byte(k)); err != nil {
+			return
+		}
+		if r.ExtraHolds == nil {
+			r.ExtraHolds = map[string]uint64{}
+		}
+		r.ExtraHolds[k]++
+		r.Fault("second_holder_hold")
+		r.curOp++
+	}
+	directOps["unhold"] = func(r *Run, ctx sdk.Context, op Op) {
+		var keys []string
+		for k, n := range r.ExtraHolds {
+			if n > 0 {
+				keys = append(keys, k)
+			}
+		}
+		if len(keys) == 0 {
+			return
+		}
+		keys = sortedStrings(keys)
+		if op.M == 1 { // release everything (epilogue)
+			for _, k := range keys {
+				for r.ExtraHolds[k] > 0 {
+					if err := r.Node.App.DelegationKeeper.DecrementUndelegationHoldCount(ctx, []byte(k)); err != nil {
+						r.ReleaseErr = append(r.ReleaseErr, k+": "+err.Error())
+					}
+					r.ExtraHolds[k]--
+				}
+			}
+			r.curOp++
+			return
+		}
+		k := keys[int(uint64(op.N)%uint64(len(keys)))]
+		if err := r.Node.App.DelegationKeeper.DecrementUndelegationHoldCount(ctx, []byte(k)); err != nil {
+			r.ReleaseErr = append(r.ReleaseErr, k+": "+err.Error())
+		}
+		r.ExtraHolds[k]--
+		r.curOp++
+	}
+}
